@@ -112,6 +112,38 @@ class VarsOnly:
         pass
 
 
+class SlotsAnn:
+    """annotated and slotted: the annotations name the fields"""
+    __slots__ = ("x", "y")
+    x: typing.Any
+    y: typing.Any
+
+    def __init__(self):
+        pass
+
+
+class SlotsAnnSub(SlotsAnn):
+    """adds one slot to an annotated slotted base: the inherited fields are still fields"""
+    __slots__ = ("z",)
+    z: typing.Any
+
+
+class SlotsReordered:
+    """__slots__ in another order than the annotations: fields come in annotation order"""
+    __slots__ = ("b", "a")
+    a: typing.Any
+    b: typing.Any
+
+    def __init__(self):
+        pass
+
+
+@dataclasses.dataclass
+class DCSub(DC):
+    """a dataclass below a dataclass: inherited fields first"""
+    third: typing.Any = 3
+
+
 class NT2(typing.NamedTuple):
     first: typing.Any
     second: typing.Any = 0
@@ -151,8 +183,9 @@ def case(draw):
         kind = draw(st.sampled_from(["dict", "OrderedDict", "MappingProxyType", "CustomMapping"]))
         return {"cat": cat, "kind": kind, "content": list(d.items())}
     if cat == "structured":
-        kind = draw(st.sampled_from(["DC", "DCFrozen", "DCSlots", "Plain", "SlotsOnly", "VarsOnly"]))
-        n = {"DC": 3, "DCFrozen": 2, "DCSlots": 2, "Plain": 3, "SlotsOnly": 3, "VarsOnly": draw(st.integers(0, 3))}[kind]
+        kind = draw(st.sampled_from(["DC", "DCFrozen", "DCSlots", "Plain", "SlotsOnly", "VarsOnly", "SlotsAnn", "SlotsAnnSub", "SlotsReordered", "DCSub"]))
+        n = {"DC": 3, "DCFrozen": 2, "DCSlots": 2, "Plain": 3, "SlotsOnly": 3, "VarsOnly": draw(st.integers(0, 3)),
+             "SlotsAnn": 2, "SlotsAnnSub": 3, "SlotsReordered": 2, "DCSub": 3}[kind]
         vals = [draw(st.one_of(two_elem, anyval)) for _ in range(n)]
         return {"cat": cat, "kind": kind, "content": vals}
     if cat == "namedtuple":
@@ -214,6 +247,15 @@ def build(c):
             x = SlotsOnly()
             x.x, x.y, x._z = v
             pairs = [("x", v[0]), ("y", v[1])]
+        elif kind in ("SlotsAnn", "SlotsAnnSub", "SlotsReordered"):
+            x = {"SlotsAnn": SlotsAnn, "SlotsAnnSub": SlotsAnnSub, "SlotsReordered": SlotsReordered}[kind]()
+            names = {"SlotsAnn": ["x", "y"], "SlotsAnnSub": ["x", "y", "z"], "SlotsReordered": ["a", "b"]}[kind]
+            for n_, val in zip(names, v):
+                setattr(x, n_, val)
+            pairs = list(zip(names, v))
+        elif kind == "DCSub":
+            x = DCSub(v[0], v[1], third=v[2])
+            pairs = [("first", v[0]), ("second", v[1]), ("third", v[2])]
         else:
             x = VarsOnly()
             names = ["u", "_w", "v"][: len(v)]
@@ -260,7 +302,7 @@ def build(c):
 def nontrivial(c, x):
     if c["cat"] == "empty" or c["kind"] in ("generator", "iter", "map"):
         return True
-    if c["cat"] == "namedtuple" or c["kind"] in ("DC", "Plain", "SlotsOnly", "VarsOnly"):
+    if c["cat"] == "namedtuple" or c["kind"] in ("DC", "Plain", "SlotsOnly", "VarsOnly", "SlotsAnn", "SlotsAnnSub", "SlotsReordered", "DCSub"):
         return True
     content = c["content"]
     if c["cat"] in ("pairs", "mixed") and content:
